@@ -269,6 +269,12 @@ func runBackendThread(w *world, name, prog string) {
 			w.cp.SetCapacity(int(prog[i] - '0'))
 		case 'X':
 			w.cp.Close()
+		case 'B':
+			// the backend goes away: pings and reconnects fail from now on
+			backend.VerifKillBackend(w.cp)
+		case 'A':
+			// idle connections become older than the pool's ping period (4 s): the next Get pings first
+			vclock.Advance(5 * time.Second)
 		}
 	}
 	for _, pc := range mine {
@@ -364,6 +370,11 @@ func scenarios(r *ev.Run) []scenario {
 		{Name: "backend-close-while-held", Backend: true, Cap: 1, Max: 2, Threads: []string{"GP", "X"}},
 		{Name: "backend-close-2clients", Backend: true, Cap: 1, Max: 2, Threads: []string{"GP", "X", "GP"}},
 		{Name: "backend-setcap", Backend: true, Cap: 1, Max: 2, Threads: []string{"GP", "C2", "GP"}},
+		// Get on a connection idle for longer than the ping period while the backend is gone: ping
+		// fails, reconnect fails, the slot must come back exactly once (added after seeded change c24-4)
+		{Name: "backend-ping-reconnect-fail", Backend: true, Cap: 1, Max: 2, Threads: []string{"GPBAGGP"}},
+		{Name: "backend-ping-reconnect-fail-full", Backend: true, Cap: 1, Max: 1, Threads: []string{"GPBAGG"}},
+		{Name: "backend-ping-reconnect-fail-2clients", Backend: true, Cap: 1, Max: 2, Threads: []string{"GPBAG", "GP"}},
 	}
 	if r.Thorough() {
 		s = append(s,
@@ -392,6 +403,8 @@ func opsOf(sc scenario) string {
 				set["idle"] = true
 			case 'N':
 				set["putnil"] = true
+			case 'B':
+				set["backenddown"] = true
 			}
 		}
 	}
